@@ -250,21 +250,28 @@ fn run_case_with(c: &Case, avoid_shutdown: bool) -> CaseResult {
             }
         }
     }
-    // settle: everything held is dropped, all connections between 0/2 and 1 end by idle expiry (or already ended)
-    for n in 0..3 {
-        if n == 1 && !remote_alive {
-            continue;
-        }
-        for p in 0..2 {
-            let _ = nodes[n].probes[p].send(ProbeCmd::DropHeld);
-        }
-    }
+    // settle: everything held is dropped, all connections between 0/2 and 1 end by idle expiry (or already ended).
+    // The release is repeated while waiting: a substream whose opened event reaches a probe after the first release (the two
+    // ends learn of a substream at slightly different moments) would otherwise be held for ever by the harness itself.
     let p0 = peers[0];
     let p1 = peers[1];
     let p2 = peers[2];
-    let settled = wait_until(&log, KEEP_ALIVE + Duration::from_millis(3000), |l| {
-        !connected(l, 0, &p1) && !connected(l, 2, &p1) && (!remote_alive || (!connected(l, 1, &p0) && !connected(l, 1, &p2)))
-    });
+    let settle_start = Instant::now();
+    let mut settled = false;
+    while settle_start.elapsed() < KEEP_ALIVE + Duration::from_millis(3000) {
+        for n in 0..3 {
+            if n == 1 && !remote_alive {
+                continue;
+            }
+            for p in 0..2 {
+                let _ = nodes[n].probes[p].send(ProbeCmd::DropHeld);
+            }
+        }
+        if wait_until(&log, Duration::from_millis(150), |l| !connected(l, 0, &p1) && !connected(l, 2, &p1) && (!remote_alive || (!connected(l, 1, &p0) && !connected(l, 1, &p2)))) {
+            settled = true;
+            break;
+        }
+    }
     std::thread::sleep(Duration::from_millis(120));
     let history: Vec<Obs> = log.lock().clone();
 
